@@ -88,6 +88,24 @@ static void run_tree(int id, const struct xcase* c, cbor_item_t* it, const unsig
   if (ab) { for (size_t i = 0; i < OUTCAP; i++) if (i < sz) VF_ASSERT(ab[i] == EXP[i], "cbor_serialize_alloc holds exactly the encoding"); a_free(ab); }
 #endif
 
+#ifdef P_ROUTE
+  /* C13: fixed-buffer serialization and size computation request no memory; copy / release route every block through the installed triple */
+  {
+    size_t r0 = a_malloc_calls + a_realloc_calls, f0 = a_frees;
+    size_t sz = cbor_serialized_size(it);
+    unsigned char* out = (unsigned char*)malloc(elen + 1); __CPROVER_assume(out != NULL);   /* the harness's own block: plain libc, not routed */
+    size_t w = cbor_serialize(it, out, elen + 1);
+    VF_ASSERT(sz == elen && w == elen, "size and serialization agree");
+    VF_ASSERT(a_malloc_calls + a_realloc_calls == r0 && a_frees == f0, "cbor_serialized_size and cbor_serialize request and release no memory");
+    free(out);
+    cbor_item_t* cp = cbor_copy(it);
+    VF_ASSERT(cp != NULL, "copy succeeds");
+    if (cp) cbor_decref(&cp);
+    unsigned char* ab = NULL; size_t absz = 0;
+    if (cbor_serialize_alloc(it, &ab, &absz)) a_free(ab); /* the returned buffer belongs to the installed allocator: its free must accept it */
+  }
+#endif
+
 #ifdef P_COPY
   static struct addrset A, B;
   size_t live0 = a_live;
